@@ -38,9 +38,15 @@ func init() {
 		}
 		defer func() { in.Close(); out.Close(); inSrv.Close(); outSrv.Close() }()
 		ver := socketace.SupportedProtocolVersions[0]
+		// silence is what a TLS endpoint is expected to answer with (the wait is then the cost of the case); the plain control is expected to
+		// answer and gets all the time a loaded machine may need
+		wait := 1200 * time.Millisecond
+		if a[1].W == "stdio" || a[1].W == "stdin" {
+			wait = 15 * time.Second
+		}
 		read := func() []byte {
 			buf := make([]byte, 4096)
-			out.SetReadDeadline(time.Now().Add(1200 * time.Millisecond))
+			out.SetReadDeadline(time.Now().Add(wait))
 			n, _ := out.Read(buf)
 			return buf[:n]
 		}
